@@ -117,6 +117,34 @@ fn log_digest() -> (usize, u64) {
     (HLOG.with(|l| l.borrow().len()), fnv(&log_bytes))
 }
 
+/// run `f` in a forked child and return what it printed, or `sig:<n>` / `exit:<n>` when it died
+fn forked(f: impl FnOnce() -> String) -> String {
+    use std::io::Read;
+    use std::os::unix::io::FromRawFd;
+    let mut fds = [0i32; 2];
+    unsafe {
+        if libc::pipe(fds.as_mut_ptr()) != 0 { return "fork-error".into(); }
+        let _ = std::io::Write::flush(&mut std::io::stdout());
+        let pid = libc::fork();
+        if pid < 0 { return "fork-error".into(); }
+        if pid == 0 {
+            libc::close(fds[0]);
+            let out = match std::panic::catch_unwind(std::panic::AssertUnwindSafe(f)) { Ok(s) => s, Err(_) => "panic".to_string() };
+            libc::write(fds[1], out.as_ptr() as *const libc::c_void, out.len());
+            libc::_exit(0);
+        }
+        libc::close(fds[1]);
+        let mut file = std::fs::File::from_raw_fd(fds[0]);
+        let mut s = String::new();
+        let _ = file.read_to_string(&mut s);
+        let mut status: i32 = 0;
+        libc::waitpid(pid, &mut status, 0);
+        if libc::WIFSIGNALED(status) { return format!("sig:{}", libc::WTERMSIG(status)); }
+        if libc::WIFEXITED(status) && libc::WEXITSTATUS(status) != 0 { return format!("exit:{}", libc::WEXITSTATUS(status)); }
+        if s.is_empty() { "empty".into() } else { s }
+    }
+}
+
 enum Vm<'a> { Mbuff(rbpf::EbpfVmMbuff<'a>), Raw(rbpf::EbpfVmRaw<'a>), NoData(rbpf::EbpfVmNoData<'a>), Fixed(rbpf::EbpfVmFixedMbuff<'a>) }
 
 macro_rules! each_vm { ($vm:expr, $v:ident => $e:expr) => { match $vm { Vm::Mbuff($v) => $e, Vm::Raw($v) => $e, Vm::NoData($v) => $e, Vm::Fixed($v) => $e } } }
@@ -126,6 +154,7 @@ pub fn run(t: &[&str]) -> String {
     let mut kv: HashMap<&str, &str> = HashMap::new();
     for tok in &t[1..] { if let Some((k, v)) = tok.split_once('=') { kv.insert(k, v); } }
     let kind = kv.get("kind").copied().unwrap_or("mbuff").to_string();
+    let norun = kv.get("norun").is_some();
     let engines: Vec<String> = kv.get("engines").map(|s| s.split(',').filter(|x| !x.is_empty() && *x != "-").map(|x| x.to_string()).collect()).unwrap_or_default();
     let fixoff: (usize, usize) = kv.get("fixoff").and_then(|s| s.split_once(':')).map(|(a, b)| (a.parse().unwrap_or(0), b.parse().unwrap_or(8))).unwrap_or((0, 8));
     let extrabase: Vec<u64> = c.extra.iter().map(|e| e.as_ptr() as u64).collect();
@@ -189,28 +218,44 @@ pub fn run(t: &[&str]) -> String {
             let (m2p, m2l, b2p, b2l) = if cref.patch.is_empty() { (m2.as_mut_ptr(), m2.len(), b2.as_mut_ptr(), b2.len()) } else {
                 unsafe { std::ptr::copy_nonoverlapping(mem0.as_ptr(), mem_ptr, mem_len); std::ptr::copy_nonoverlapping(mbuff0.as_ptr(), mbuff_ptr, mbuff_len); }
                 (mem_ptr, mem_len, mbuff_ptr, mbuff_len) };
-            let m2r: &mut [u8] = unsafe { std::slice::from_raw_parts_mut(m2p, m2l) };
-            let b2r: &mut [u8] = unsafe { std::slice::from_raw_parts_mut(b2p, b2l) };
             HLOG.with(|l| l.borrow_mut().clear());
             unsafe { ALIGN_SLOT = 0xff; }
-            let compiled = match (e.as_str(), &mut vm) {
-                ("jit", Vm::Mbuff(v)) => v.jit_compile(), ("jit", Vm::Raw(v)) => v.jit_compile(), ("jit", Vm::NoData(v)) => v.jit_compile(), ("jit", Vm::Fixed(v)) => v.jit_compile(),
-                ("clif", Vm::Mbuff(v)) => v.cranelift_compile(), ("clif", Vm::Raw(v)) => v.cranelift_compile(), ("clif", Vm::NoData(v)) => v.cranelift_compile(), ("clif", Vm::Fixed(v)) => v.cranelift_compile(),
-                _ => return Err("unknown engine".into()),
+            let mut compile = |vm: &mut Vm| -> Result<Result<(), std::io::Error>, ()> {
+                std::panic::catch_unwind(std::panic::AssertUnwindSafe(|| match (e.as_str(), vm) {
+                    ("jit", Vm::Mbuff(v)) => v.jit_compile(), ("jit", Vm::Raw(v)) => v.jit_compile(), ("jit", Vm::NoData(v)) => v.jit_compile(), ("jit", Vm::Fixed(v)) => v.jit_compile(),
+                    ("clif", Vm::Mbuff(v)) => v.cranelift_compile(), ("clif", Vm::Raw(v)) => v.cranelift_compile(), ("clif", Vm::NoData(v)) => v.cranelift_compile(), ("clif", Vm::Fixed(v)) => v.cranelift_compile(),
+                    _ => Err(std::io::Error::other("unknown engine")),
+                })).map_err(|_| ())
             };
-            if let Err(_) = compiled { engine_out_ref.push(format!("{}=compile-err", e)); continue; }
-            if !interp_ok { engine_out_ref.push(format!("{}=compiled", e)); continue; }   // outside the claim: never run unchecked code
-            unsafe { libc::alarm(10); }
-            let r = unsafe { match (e.as_str(), &mut vm) {
-                ("jit", Vm::Mbuff(v)) => v.execute_program_jit(m2r, b2r), ("jit", Vm::Raw(v)) => v.execute_program_jit(m2r), ("jit", Vm::NoData(v)) => v.execute_program_jit(), ("jit", Vm::Fixed(v)) => v.execute_program_jit(m2r),
-                ("clif", Vm::Mbuff(v)) => v.execute_program_cranelift(m2r, b2r), ("clif", Vm::Raw(v)) => v.execute_program_cranelift(m2r), ("clif", Vm::NoData(v)) => v.execute_program_cranelift(), ("clif", Vm::Fixed(v)) => v.execute_program_cranelift(m2r),
-                _ => unreachable!(),
-            } };
-            unsafe { libc::alarm(0); }
-            let (nlog, logd) = log_digest();
-            let al = unsafe { ALIGN_SLOT };
-            let (mview, bview): (&[u8], &[u8]) = unsafe { (std::slice::from_raw_parts(m2p, m2l), std::slice::from_raw_parts(b2p, b2l)) };
-            engine_out_ref.push(match r { Ok(v) => format!("{}=ok:r0={:016x}:mem={:016x}:mbuff={:016x}:LOG={}:{:016x}:align={:x}", e, v, fnv(mview), fnv(bview), nlog, logd, al), Err(_) => format!("{}=err", e) });
+            let code_of = |vm: &Vm| -> Option<Vec<u8>> { if e != "jit" { return None; } match vm { Vm::Mbuff(v) => v.verif_jit_code(), Vm::Raw(v) => v.verif_jit_code(), Vm::NoData(v) => v.verif_jit_code(), Vm::Fixed(v) => v.verif_jit_code() }.map(|c| c.to_vec()) };
+            let c1 = compile(&mut vm);
+            let code1 = code_of(&vm);
+            let c2 = compile(&mut vm);
+            let code2 = code_of(&vm);
+            let st = |c: &Result<Result<(), std::io::Error>, ()>| match c { Err(()) => "compile-panic", Ok(Err(_)) => "compile-err", Ok(Ok(())) => "ok" };
+            if st(&c1) != st(&c2) || code1 != code2 { engine_out_ref.push(format!("{}=nonrepeatable:{}:{}", e, st(&c1), st(&c2))); continue; }
+            if st(&c1) != "ok" { engine_out_ref.push(format!("{}={}", e, st(&c1))); continue; }
+            let code_info = match &code1 { Some(c) => format!(":code={}.{:016x}", c.len(), fnv(c)), None => String::new() };
+            if !interp_ok || norun { engine_out_ref.push(format!("{}=compiled{}", e, code_info)); continue; }   // outside the claim: never run unchecked code
+            // run the generated code in a forked child: a fault, trap or endless loop must not take the harness down
+            let vmref = &mut vm;
+            let res = forked(move || {
+                let vm = vmref;
+                let m2r: &mut [u8] = unsafe { std::slice::from_raw_parts_mut(m2p, m2l) };
+                let b2r: &mut [u8] = unsafe { std::slice::from_raw_parts_mut(b2p, b2l) };
+                unsafe { let it = libc::itimerval { it_interval: libc::timeval { tv_sec: 0, tv_usec: 0 }, it_value: libc::timeval { tv_sec: 0, tv_usec: 400_000 } }; libc::setitimer(libc::ITIMER_REAL, &it, std::ptr::null_mut()); }
+                let r = unsafe { match (e.as_str(), vm) {
+                    ("jit", Vm::Mbuff(v)) => v.execute_program_jit(m2r, b2r), ("jit", Vm::Raw(v)) => v.execute_program_jit(m2r), ("jit", Vm::NoData(v)) => v.execute_program_jit(), ("jit", Vm::Fixed(v)) => v.execute_program_jit(m2r),
+                    ("clif", Vm::Mbuff(v)) => v.execute_program_cranelift(m2r, b2r), ("clif", Vm::Raw(v)) => v.execute_program_cranelift(m2r), ("clif", Vm::NoData(v)) => v.execute_program_cranelift(), ("clif", Vm::Fixed(v)) => v.execute_program_cranelift(m2r),
+                    _ => unreachable!(),
+                } };
+                unsafe { let it = libc::itimerval { it_interval: libc::timeval { tv_sec: 0, tv_usec: 0 }, it_value: libc::timeval { tv_sec: 0, tv_usec: 0 } }; libc::setitimer(libc::ITIMER_REAL, &it, std::ptr::null_mut()); }
+                let (nlog, logd) = log_digest();
+                let al = unsafe { ALIGN_SLOT };
+                let (mview, bview): (&[u8], &[u8]) = unsafe { (std::slice::from_raw_parts(m2p, m2l), std::slice::from_raw_parts(b2p, b2l)) };
+                match r { Ok(v) => format!("ok:r0={:016x}:mem={:016x}:mbuff={:016x}:LOG={}:{:016x}:align={:x}", v, fnv(mview), fnv(bview), nlog, logd, al), Err(_) => "err".to_string() }
+            });
+            engine_out_ref.push(format!("{}={}{}", e, res, if res.starts_with("ok") { String::new() } else { code_info.clone() }));
         }
         Ok(first)
     }));
@@ -665,4 +710,9 @@ pub fn gen_engines(w: &mut impl Write, thorough: bool, seed: u64) {
         let p: Vec<u8> = slots.iter().flatten().copied().collect();
         writeln!(w, "exec tag=farjump prog={} budget=400000 engines=jit,clif kind=nodata", hex(&p)).unwrap();
     }
+}
+
+/// C12: the accepted strings of the verify suite, compiled by both engines (and run when the interpreter returns a value)
+pub fn gen_accepted_engines(w: &mut impl Write, thorough: bool, seed: u64) {
+    with_suffix(w, |b| gen_accepted(b, thorough, seed), &mut |_| Some("engines=jit,clif kind=mbuff norun=1".into()));
 }
